@@ -243,6 +243,71 @@ def corpus_expectations(case, ev):
                "GET_ME_GQL = " in ops and "query=GET_ME_GQL" in client(cfg))
 
 
+LEGACY = "C15-plugins-ignore-legacy-section"
+EMPTY_TC = "C15-forward-refs-empty-type-checking-block"
+REDUCED = ["S", "E", "F", "N", "SE", "SF", "FS", "EF", "SEFN", "FESN", "I"]
+# operation names built to collide if the constant's name were not injective (X / XGql / XGqlGql, a bare Gql)
+COLLIDE_SDL = "type Query { item: Int userDetails: Int }\n"
+COLLIDE_QUERIES = """query item { item }
+query itemGql { item }
+query itemGqlGql { item }
+query userDetails { userDetails }
+query userDetailsGql { userDetails }
+query Gql { item }
+query GqlGql { userDetails }
+"""
+# (sub-scenario, reference scenario, what the pair shows): trees must be identical configuration by configuration
+TREE_PAIRS = [(-4, -1, "unknown and kebab-case option keys must be ignored"),
+              (-5, -7, "the legacy [ariadne-codegen] section must give the package of [tool.ariadne-codegen]")]
+
+
+def option_scenarios(base1):
+    """Options the bundled plugins read from the RAW configuration (derived from source by c15_source.raw_option_reads:
+    fragments_module_name by ShorterResults; the extract-operations table, and through get_client_settings
+    target_package_name / include_comments / async_client, by ExtractOperations) take NON-DEFAULT values here;
+    option keys the settings ignore (unknown, kebab-case) and the legacy section must not change the package."""
+    out = []
+    cfg3 = dict(base1.config, fragments_module_name="shared_fragments", include_comments="stable",
+                target_package_name="my_client", **{"extract-operations": {"operations_module_name": "ops_module"}})
+    out.append(scenario.Scenario(seed=-3, sdl=base1.sdl, queries=base1.queries, config=cfg3, files=dict(base1.files),
+                                 features=("fixed", "plugin_options"), notes={"configs": REDUCED}))
+    cfg4 = dict(base1.config, **{"fragments-module-name": "kebab_fragments", "no_such_option": True,
+                                 "target-package-name": "kebab_client", "plugins-extra": ["x"]})
+    out.append(scenario.Scenario(seed=-4, sdl=base1.sdl, queries=base1.queries, config=cfg4, files=dict(base1.files),
+                                 features=("fixed", "ignored_keys"), notes={"configs": REDUCED}))
+    cfg7 = dict(base1.config, fragments_module_name="shared_fragments")
+    out.append(scenario.Scenario(seed=-7, sdl=base1.sdl, queries=base1.queries, config=cfg7, files=dict(base1.files),
+                                 features=("fixed", "plugin_options"), notes={"configs": REDUCED}))
+    out.append(scenario.Scenario(seed=-5, sdl=base1.sdl, queries=base1.queries, config=dict(cfg7), files=dict(base1.files),
+                                 features=("fixed", "legacy_section"), notes={"configs": REDUCED, "legacy_section": True}))
+    out.append(scenario.Scenario(seed=-6, sdl=COLLIDE_SDL, queries=COLLIDE_QUERIES,
+                                 config={"convert_to_snake_case": True, "async_client": True, "opentelemetry_client": False},
+                                 features=("fixed", "constant_collisions"), notes={"configs": REDUCED}))
+    return out
+
+
+def compare_trees_across(cases, run):
+    by_seed = {c.sc.seed: c for c in cases}
+    for sub, ref, what in TREE_PAIRS:
+        a, b = by_seed.get(sub), by_seed.get(ref)
+        if a is None or b is None or not getattr(a, "files", None) or not getattr(b, "files", None):
+            continue
+        for cfg in [""] + a.configs:
+            fa, fb = a.files.get(cfg), b.files.get(cfg)
+            if fa is None or fb is None:
+                continue
+            run.count()
+            changed = sorted(k for k in set(fa) | set(fb) if fa.get(k) != fb.get(k))
+            run.dist("option_forms", ("same" if not changed else "differs") + ":" + what.split()[1])
+            if changed:
+                rep = replay_of(a, cfg, reference_config=b.sc.config, changed=changed, legacy_section=bool(a.sc.notes.get("legacy_section")))
+                if a.sc.notes.get("legacy_section") and "S" in cfg and changed == ["client.py"]:
+                    run.finding(LEGACY, f"{what}: with {cfg!r} client.py differs (ShorterResults reads fragments_module_name "
+                                        f"from [tool.ariadne-codegen] only)", rep)
+                else:
+                    run.violation(f"{what}: with plugins {cfg!r} files {changed} differ", rep)
+
+
 def fixed_scenarios():
     out = _fixed_scenarios()
     out.insert(0, scenario.Scenario(seed=-100, sdl=CORPUS_SDL, queries=CORPUS_QUERIES,
@@ -270,7 +335,7 @@ def fixed_scenarios():
         out.append(scenario.Scenario(seed=-21 - i, sdl=sdl, queries=queries + "\n", config=cfg,
                                      features=("fixed", "custom_operations") + (("local_clash",) if not asyn else ()),
                                      files=dict(base.files)))
-    return out
+    return out + option_scenarios(out[4])
 
 
 def _fixed_scenarios():
@@ -344,11 +409,19 @@ def const_name(op_name: str) -> str:
     return str_to_snake_case(op_name).upper() + "_GQL"
 
 
+def ops_module(sc):
+    return (sc.config.get("extract-operations") or {}).get("operations_module_name", "operations")
+
+
+def frag_module(sc):
+    return sc.config.get("fragments_module_name", "fragments")
+
+
 class Case:
     """One scenario: the unplugged package + its plugged variants."""
 
     def __init__(self, sc, configs):
-        self.sc, self.configs = sc, configs
+        self.sc, self.configs = sc, list(sc.notes.get("configs") or configs)
         self.gen = {}  # config -> Generated
 
 
@@ -363,7 +436,7 @@ def drive(g, ops, sc, plans, want_consts=False):
         out["hints"] = g.driver.ask({"cmd": "hints"})
         if want_consts:
             out["consts"] = g.driver.ask({"cmd": "eval", "code": (
-                "m = mods.get('operations')\n"
+                f"m = mods.get({ops_module(sc)!r})\n"
                 "result = None if m is None else {k: getattr(m, k) for k in getattr(m, '__all__', [])}\n")})
         for op in ops:
             name = op.name.value
@@ -403,7 +476,7 @@ def run(ctx):
 
     c15_source.run(ctx)
     thorough = ctx.thorough
-    n_seeded = 6 if not thorough else 60
+    n_seeded = 5 if not thorough else 60
     base_seed = ctx.seed * 100000 + 1500
     scenarios = fixed_scenarios()
     for i in range(n_seeded):
@@ -430,9 +503,10 @@ def _run(ctx, scenarios, configs, scratch):
     for si, sc in enumerate(scenarios):
         files = dict(sc.files)
         files["c15_identity_plugin.py"] = IDENTITY_SRC
-        for cfg in [""] + configs + (FORM_CONFIGS if si < N_FORM_SCENARIOS else []):
+        for cfg in [""] + list(sc.notes.get("configs") or configs) + (FORM_CONFIGS if si < N_FORM_SCENARIOS else []):
             d = scratch.new(f"s{si}_")
-            over = {"config": {"plugins": [PLUGINS[c] for c in cfg]}, "add_sys_path": True, "files": files}
+            over = {"config": {"plugins": [PLUGINS[c] for c in cfg]}, "add_sys_path": True, "files": files,
+                    "legacy_section": bool(sc.notes.get("legacy_section"))}
             reqs.append(sc.request(d, **over))
             index.append((si, cfg))
     results = generate_fresh(reqs, jobs=14)
@@ -471,6 +545,7 @@ def _run(ctx, scenarios, configs, scratch):
         case.driven = getattr(case, "driven", {})
         case.driven[case.hash[cfg]] = res
     outs = [check_case(c, plans) for c in cases]
+    compare_trees_across(cases, run)
     for kind, *rest in regen:
         if kind == "violation":
             run.violation(rest[0], rest[1])
@@ -566,7 +641,7 @@ def unreserve(param: str, constants) -> str:
 def replay_of(case, cfg, **kw):
     sc = case.sc
     r = {"seed": sc.seed, "features": list(sc.features), "plugins": [PLUGINS[c] for c in cfg], "configuration": cfg,
-         "schema": sc.sdl, "queries": sc.queries, "config": sc.config}
+         "schema": sc.sdl, "queries": sc.queries, "config": sc.config, "legacy_section": bool(sc.notes.get("legacy_section"))}
     r.update(kw)
     return r
 
@@ -628,6 +703,13 @@ def _check_case(case, plans, ev):
         if not g.ok:
             ev.append(("count", 1))
             # (finding C15-forward-refs-custom-operations — KeyError: 'self' — is fixed by /repo 91a5368)
+            exc = g.res.get("exc") or ["", ""]
+            if "F" in cfg and "InvalidInput" in exc[0] and "def gql" in exc[1]:
+                # the statement after the (empty) `if TYPE_CHECKING:` block cannot be parsed
+                ev.append(("finding", EMPTY_TC, f"generation with plugins {cfg!r} fails: {exc[0]}: {exc[1][:120]!r}",
+                           replay_of(case, cfg, exc=exc)))
+                ev.append(("dist", "finding_inputs", "only-builtin-annotations+ClientForwardRefs"))
+                continue
             ev.append(("violation", f"generation with plugins {cfg!r} fails ({g.res.get('exc')}) while the unplugged one succeeds",
                        replay_of(case, cfg, exc=g.res.get("exc"), tb=g.res.get("tb")), True))
             continue
@@ -635,6 +717,7 @@ def _check_case(case, plans, ev):
         # ---------------------------------------------------------------- files on disk
         changed = {k for k in set(files) | set(base_files) if files.get(k) != base_files.get(k)}
         allowed = set().union(*[ALLOWED[c] for c in cfg]) if cfg else set()
+        allowed = {ops_module(sc) + ".py" if k == "operations.py" else k for k in allowed}
         ev.append(("count", 1))
         if not changed <= allowed:
             what = ("identity plugin changes bytes" if set(cfg) <= {"I"} else "files outside the documented change differ")
@@ -647,10 +730,10 @@ def _check_case(case, plans, ev):
                        replay_of(case, cfg, changed=sorted(changed), diff=diff), True))
         if "N" in cfg:
             init = files.get("__init__.py", "")
-            if init.strip():
+            if "\n".join(l for l in init.splitlines() if l.strip() and not l.lstrip().startswith("#")).strip():
                 ev.append(("violation", f"NoReimports leaves a non-empty __init__.py ({cfg!r})",
                            replay_of(case, cfg, init=init[:500]), True))
-        if "E" in cfg and "operations.py" not in files:
+        if "E" in cfg and ops_module(sc) + ".py" not in files:
             ev.append(("violation", f"ExtractOperations wrote no operations module ({cfg!r})", replay_of(case, cfg), True))
         # configurations that differ only by the identity plugin must give identical trees
         no_i = cfg.replace("I", "")
@@ -672,6 +755,12 @@ def compare(case, cfg, ops, plans, base_run, res, ev, first):
     load, bload = res["load"], base_run["load"]
     if not load.get("ok"):
         rep = replay_of(case, cfg, modules={k: v for k, v in load.get("modules", {}).items() if v != "ok"})
+        if (case.sc.notes.get("legacy_section") and "S" in cfg and frag_module(case.sc) != "fragments"
+                and any(".fragments'" in v for v in rep["modules"].values())):
+            ev.append(("finding", LEGACY, f"package generated with {cfg!r} from the legacy [ariadne-codegen] section and "
+                                          f"fragments_module_name = {frag_module(case.sc)!r} does not import: {rep['modules']}", rep))
+            ev.append(("dist", "finding_inputs", "legacy-section+ShorterResults+fragments_module_name"))
+            return
         # (finding C15-no-reimports-custom-operations — `from . import <Enum>` in custom_*.py — is fixed by /repo 2282fe6)
         # (finding F24 — every ClientForwardRefs package failed here — is fixed by /repo 7b86743: a regression is a violation)
         ev.append(("violation", f"package generated with plugins {cfg!r} does not import: {rep['modules']}", rep, True))
@@ -692,7 +781,7 @@ def compare(case, cfg, ops, plans, base_run, res, ev, first):
                        replay_of(case, cfg), True))
         bex = set(bload.get("exported", [])) - set(bload.get("modules", {}))
         ex = set(load.get("exported", [])) - set(load.get("modules", {}))
-        extra_ok = (set(consts) | {"operations"}) if "E" in cfg else set()
+        extra_ok = (set(consts) | {ops_module(case.sc)}) if "E" in cfg else set()
         if not (bex <= ex and ex - bex <= extra_ok):
             ev.append(("violation", f"re-exported names differ with {cfg!r}: {sorted(ex ^ bex)[:8]}", replay_of(case, cfg), True))
     # signatures (names, kinds, required-ness) — hints are compared below
@@ -711,6 +800,10 @@ def compare(case, cfg, ops, plans, base_run, res, ev, first):
         if not isinstance(cv, dict):
             ev.append(("violation", f"operations module unreadable with {cfg!r}: {res.get('consts')}", replay_of(case, cfg), True))
         else:
+            if len(set(cv)) != len(ops):
+                ev.append(("violation", f"ExtractOperations: {len(ops)} operations ({[o.name.value for o in ops]}) but only "
+                                        f"{len(set(cv))} distinct constants {sorted(cv)} — two operations share a constant ({cfg!r})",
+                           replay_of(case, cfg, constants=sorted(cv)), True))
             if sorted(cv) != consts:
                 ev.append(("violation", f"operations constants {sorted(cv)} != expected {consts} ({cfg!r})", replay_of(case, cfg), True))
             for op in ops:
@@ -724,7 +817,11 @@ def compare(case, cfg, ops, plans, base_run, res, ev, first):
                                          same_ast=ast_doc(b) == ast_doc(c)), True))
                 ev.append(("count", 1))
     hints, bhints = res.get("hints") or {}, base_run.get("hints") or {}
-    if hints.get("tc_errors"):
+    if (hints.get("tc_errors") and case.sc.notes.get("legacy_section") and "S" in cfg
+            and all(".fragments import" in e for e in hints["tc_errors"])):
+        ev.append(("finding", LEGACY, f"TYPE_CHECKING imports of {cfg!r} do not resolve (legacy section): {hints['tc_errors'][:2]}",
+                   replay_of(case, cfg, tc_errors=hints["tc_errors"])))
+    elif hints.get("tc_errors"):
         ev.append(("violation", f"TYPE_CHECKING imports of {cfg!r} do not resolve: {hints['tc_errors'][:3]}",
                    replay_of(case, cfg, tc_errors=hints["tc_errors"]), True))
     for op in ops:
